@@ -29,7 +29,7 @@ def configs(tier, icrules=None):
                          ("SolveCDF", "diag")):
         for order in (1, 0):
             for (nrb, nel, nrf) in ((0, 3, 0), (2, 3, 2), (1, 2, 0), (0, 2, 1)):
-                for mform in ("none", "vec", "mat"):
+                for mform in ("none", "vec", "mat") + (("matns",) if kind == "coupled" else ()):      # matns: full and not symmetric
                     for ic in sorted(icrules):
                         out.append(dict(solver=solver, kind=kind, order=order, nrb=nrb, nel=nel, nrf=nrf,
                                         mform=mform, ic=ic, icrule=[bool(x) for x in icrules[ic]]))
